@@ -493,7 +493,7 @@ func (*Parser).parseWhere
   loop 1 decreases 101 - iterations
 
 func (*Parser).parseHaving
-  props C11 C06 C16 C17
+  props C11 C06 C16 C17 C13 C07
   option safety
   requires parOK(p) && stmt != nil
   modifies stmt.Having, heap(Lexer.ch), heap(Lexer.pos), heap(Lexer.readPos), heap(Lexer.line), heap(Lexer.column), p.errorRecovery.errors
@@ -510,6 +510,16 @@ pred lexMods() := true
 func convertValue
   props C11 C06 C16 C17
   option safety
+  observe ival := Atoi
+  observe ierr := Atoi#1
+  observe fval := ParseFloat
+  observe ferr := ParseFloat#1
+  before Atoi the-text-read-as-an-integer-is-the-value-written: $arg0 == s
+  before ParseFloat the-text-read-as-a-number-is-the-value-written-at-full-precision: $arg0 == s && $arg1 == 64
+  atreturn the-truth-words-are-booleans: (s == "true" ==> result == boxof(true, bool)) && (s == "false" ==> result == boxof(false, bool))
+  atreturn an-integer-is-that-integer: s != "true" && s != "false" && $ierr == nil ==> result == boxof($ival, int)
+  atreturn any-other-number-is-that-number: s != "true" && s != "false" && $ierr != nil && $ferr == nil ==> result == boxof($fval, float64)
+  atreturn text-between-single-quotes-loses-them-anything-else-is-kept-as-written: s != "true" && s != "false" && $ierr != nil && $ferr != nil ==> result == boxof(ite(strings.HasPrefix(s, "'") && strings.HasSuffix(s, "'"), strings.Trim(s, "'"), s), string)
 
 pred clauseWord(u) := u == "JOIN" || u == "INNER" || u == "LEFT" || u == "RIGHT" || u == "FULL" || u == "CROSS" || u == "ON" || u == "WHERE" || u == "GROUP" || u == "HAVING" || u == "ORDER" || u == "LIMIT" || u == "WITH" || u == "MATCH_RECOGNIZE"
 
@@ -757,6 +767,7 @@ func isKeyword
   props C11 C06 C16 C17
   option safety
   option pure
+  ensures exactly-the-reserved-words-in-capitals: result <==> (word == "SELECT" || word == "FROM" || word == "WHERE" || word == "GROUP" || word == "BY" || word == "ORDER" || word == "HAVING" || word == "LIMIT" || word == "WITH" || word == "AS" || word == "CASE" || word == "WHEN" || word == "THEN" || word == "ELSE" || word == "END" || word == "AND" || word == "OR" || word == "NOT" || word == "IN" || word == "IS" || word == "NULL" || word == "DISTINCT" || word == "COUNT" || word == "SUM" || word == "AVG" || word == "MIN" || word == "MAX" || word == "INNER" || word == "LEFT" || word == "RIGHT" || word == "FULL" || word == "OUTER" || word == "JOIN" || word == "ON" || word == "UNION" || word == "ALL" || word == "EXCEPT" || word == "INTERSECT" || word == "EXISTS" || word == "BETWEEN" || word == "LIKE" || word == "ASC" || word == "DESC")
 
 func (*Parser).parseSelect
   props C11 C06 C16 C17
